@@ -28,7 +28,7 @@ from ser import Ser, Ids, Unsupported, rat, env_text
 from props import c11 as R
 
 LEAN_MODULE = "Optyx.Props.C10"
-EXTRA_MODULES = ["Optyx.Props.PinsC10"]   # transcription anchors (harness/source_pins.py)
+EXTRA_MODULES = ["Optyx.Props.PinsC10", "Optyx.Props.ConstraintTie"]   # transcription anchors (harness/source_pins.py)
 THEOREMS = [
     "Optyx.Props.C10.mkConstraint_denote",
     "Optyx.Props.C10.mkConstraint_error_iff",
@@ -48,6 +48,11 @@ THEOREMS = [
     "Optyx.Props.Glue.makeConstraint_shape",
     "Optyx.Props.Glue.scipyConstraint_agrees",
     "Optyx.Props.Glue.conRow_table",
+    "Optyx.Props.ConstraintTie.api_violation_eq",
+    "Optyx.Props.ConstraintTie.senses_eq",
+    "Optyx.Props.ConstraintTie.isSatisfied_eq",
+    "Optyx.Props.ConstraintTie.isSatisfied_default",
+    "Optyx.Props.ConstraintTie.evaluate_text",
     "Optyx.Props.PinsC10.anchors",
 ]
 ASSUMPTIONS = [
